@@ -9,6 +9,7 @@ substituted {atom: count} dictionary and the density at unchanged cell volume
 from atom counts and masses, and asks periodictable.neutron_sld for the SLD of
 *that* compound.  The same is done for the H2O/D2O solvent mixture.
 """
+from .. import subtable
 from fractions import Fraction
 import math
 
@@ -113,7 +114,7 @@ def private_env():
     E = env()
     if "private" not in E:
         from periodictable import core, mass, density, nsf
-        T = core.PeriodicTable("c16-H=1")
+        T = subtable.new("c16-H=1")
         mass.init(T)
         density.init(T)
         scale = E["T"].H[1].mass
